@@ -319,3 +319,162 @@ def expand(f, e, depth=0, bools_only=False, stop=()):
                 out[key] = nl
                 changed = True
     return out if changed else e
+
+
+# ------------------------------------------------------------------ counted loops
+
+def _writes_to(f, vid):
+    out = []
+    for e in fn_exprs(f):
+        k = e.get('k')
+        tgt = None
+        if k == 'bin' and e.get('op', '').endswith('=') and e['op'] not in ('==', '!=', '<=', '>='):
+            tgt = strip_lv(e['x'])
+        elif k == 'un' and e.get('op') in ('post++', 'post--', 'pre++', 'pre--', '&'):
+            tgt = strip_lv(e['e'])
+        if tgt is not None and tgt.get('k') == 'var' and tgt.get('id') == vid:
+            out.append(e)
+    return out
+
+
+def _has_continue(s):
+    """a `continue` that belongs to this loop body (not to a nested loop)"""
+    if not isinstance(s, dict):
+        return False
+    k = s.get('k')
+    if k == 'continue':
+        return True
+    if k in ('for', 'while', 'do'):
+        return False
+    for key in ('then', 'else', 'sub', 'body'):
+        if _has_continue(s.get(key)):
+            return True
+    for c in s.get('s', []) or []:
+        if _has_continue(c):
+            return True
+    return False
+
+
+def _step_of(inc, vid=None):
+    """(var id, step) of an increment expression `i++`, `i += s`, `i = i + s` (step: int +1/-1 or an expression)"""
+    inc = strip(inc)
+    if inc.get('k') == 'un' and inc.get('op') in ('post++', 'pre++', 'post--', 'pre--'):
+        t = strip_lv(inc['e'])
+        if t.get('k') == 'var' and (vid is None or t['id'] == vid):
+            return t, (1 if '++' in inc['op'] else -1)
+    if inc.get('k') == 'bin' and inc.get('op') in ('+=', '-='):
+        t = strip_lv(inc['x'])
+        if t.get('k') == 'var' and (vid is None or t['id'] == vid):
+            return t, (inc['y'] if inc['op'] == '+=' else {'k': 'un', 'op': '-', 'e': inc['y'], 't': inc.get('t')})
+    if inc.get('k') == 'bin' and inc.get('op') == '=':
+        t = strip_lv(inc['x'])
+        r = strip(inc['y'])
+        if t.get('k') == 'var' and (vid is None or t['id'] == vid) and r.get('k') == 'bin' and r.get('op') == '+' and strip(r['x']).get('id') == t['id']:
+            return t, r['y']
+    return None, None
+
+
+def _comma_parts(e):
+    e = strip(e)
+    if e.get('k') == 'bin' and e.get('op') == ',':
+        return _comma_parts(e['x']) + _comma_parts(e['y'])
+    return [e]
+
+
+def counted_loop(f, lp, need_init=True):
+    """Normal form of a counting loop, whichever way it is spelt:
+         for (T i = a; i < b; i += s) body          while-form:  T i = a; ... while (i < b) { body; i += s; }
+       -> {'var': id, 'name', 'init': expr or None, 'cond': the whole condition, 'op': '<' | '<=' | '!=' | '>' | '>=' or None,
+           'bound': expr (when the condition is `i <op> bound`), 'step': expr or +1/-1 (int), 'body': [statements without the increment]}
+       or None when the loop is not of that form.  The induction variable is the variable of the condition that the
+       increment (for-increment, possibly one operand of a comma; or last statement of a while body without `continue`)
+       steps; inside the loop it is written nowhere else.  With need_init it is also written nowhere else in the function
+       than its initialisation."""
+    if lp.get('k') not in ('for', 'while') or lp.get('c') is None:
+        return None
+    body = lp['body']['s'] if lp['body'].get('k') == 'block' else [lp['body']]
+    incs = []
+    rest = body
+    if lp['k'] == 'for' and lp.get('inc') is not None:
+        incs = _comma_parts(lp['inc'])
+    elif body and body[-1].get('k') == 'expr' and not _has_continue(lp['body']):
+        incs = _comma_parts(body[-1]['e'])
+        rest = body[:-1]
+    cond_vars = set(w['id'] for w in walk_expr(lp['c']) if w.get('k') == 'var')
+    c = strip(lp['c'])
+    flip = {'<': '>', '<=': '>=', '>': '<', '>=': '<=', '!=': '!='}
+    in_loop = set(id(e) for e in stmt_exprs(lp['body']))
+    if lp.get('inc') is not None:
+        in_loop |= set(id(e) for e in walk_expr(lp['inc']))
+    in_loop |= set(id(e) for e in walk_expr(lp['c']))
+    for inc in incs:
+        v, step = _step_of(inc)
+        if v is None or v['id'] not in cond_vars:
+            continue
+        vid = v['id']
+        writes = _writes_to(f, vid)
+        others = [w for w in writes if w is not inc]
+        if any(id(w) in in_loop for w in others):
+            continue
+        op = bound = None
+        if c.get('k') == 'bin' and c.get('op') in flip:
+            if strip(c['x']).get('k') == 'var' and strip(c['x'])['id'] == vid:
+                op, bound = c['op'], c['y']
+            elif strip(c['y']).get('k') == 'var' and strip(c['y'])['id'] == vid:
+                op, bound = flip[c['op']], c['x']
+        init = None
+        if lp['k'] == 'for' and lp.get('init') is not None:
+            ini = lp['init']
+            if ini.get('k') == 'decl':
+                for dv in ini['vars']:
+                    if dv['id'] == vid:
+                        init = dv.get('init')
+            elif ini.get('k') == 'expr':
+                for e0 in _comma_parts(ini['e']):
+                    if e0.get('k') == 'bin' and e0.get('op') == '=' and strip_lv(e0['x']).get('id') == vid:
+                        init = e0['y']
+                        others = [w for w in others if w is not e0]
+        if init is None:
+            # declared (or assigned once) before the loop
+            for s_ in walk_stmts(f.get('body')):
+                if s_.get('k') == 'decl':
+                    for dv in s_['vars']:
+                        if dv['id'] == vid and dv.get('init') is not None and s_.get('l', 0) <= lp.get('l', 0):
+                            init = dv['init']
+            if init is None and len(others) == 1:
+                e0 = others[0]
+                if e0.get('k') == 'bin' and e0.get('op') == '=' and e0.get('l', 0) <= lp.get('l', 0):
+                    init = e0['y']
+                    others = []
+        if init is None and v.get('vk') == 'param' and not others:
+            init = v            # a parameter counted down / up from its incoming value
+        if need_init and (init is None or others):
+            continue
+        if others:
+            init = None
+        return {'var': vid, 'name': v.get('n'), 'init': init, 'cond': lp['c'], 'op': op, 'bound': bound, 'step': step, 'body': rest, 'loop': lp}
+    return None
+
+
+def trip_count(init, op, bound, step):
+    """number of iterations of `for (i = init; i <op> bound; i += step)` for concrete integers (closed form, None = unbounded)"""
+    if step == 0:
+        return None
+    if op in ('<', '<='):
+        if step < 0:
+            return None if (init < bound or (op == '<=' and init == bound)) else 0
+        lim = bound + (1 if op == '<=' else 0)
+        return max(0, -((init - lim) // step))
+    if op in ('>', '>='):
+        if step > 0:
+            return None if (init > bound or (op == '>=' and init == bound)) else 0
+        lim = bound - (1 if op == '>=' else 0)
+        return max(0, -((lim - init) // (-step)))
+    if op == '!=':
+        d = bound - init
+        if d == 0:
+            return 0
+        if d % step == 0 and d // step > 0:
+            return d // step
+        return None
+    return None
